@@ -446,6 +446,10 @@ func (lb *LoadBalancer) AddBackend(backendCfg config.BackendConfig) error {
 
 	// Create a reverse proxy for this backend with optimized transport
 	proxy := httputil.NewSingleHostReverseProxy(backendURL)
+	// Pass on what the backend flushes as it arrives, also when the response
+	// declares its length (by default only unknown-length and event-stream
+	// responses are flushed before the body ends)
+	proxy.FlushInterval = -1
 
 	// Configure custom transport with timeouts (LEETCODE-STYLE OPTIMIZATION!)
 	dialTimeout := time.Duration(lb.config.Server.Timeouts.BackendDial) * time.Second
